@@ -25,8 +25,9 @@ from .sym import (PathAbort, PyExc, SBool, SFloat, SInt, SStr, SV, Unsupported,
                   mk_bool, mk_float, mk_int, mk_str)
 
 MAIN_TIMEOUT_MS = int(os.environ.get('PYVC_TIMEOUT_MS', '10000'))
-MAIN_RLIMIT = int(os.environ.get('PYVC_RLIMIT', '60000000'))
-PORTFOLIO_BUDGET_S = float(os.environ.get('PYVC_PORTFOLIO_S', '90'))
+MAIN_RLIMIT = int(os.environ.get('PYVC_RLIMIT', '30000000'))
+QUICK_RLIMIT = int(os.environ.get('PYVC_QUICK_RLIMIT', '4000000'))
+PORTFOLIO_BUDGET_S = float(os.environ.get('PYVC_PORTFOLIO_S', '120'))
 PORTFOLIO_SPENT_S = 0.0
 CVC5 = '/usr/bin/cvc5'
 OLDZ3 = '/usr/bin/z3'
@@ -77,64 +78,100 @@ def run_cli(cmd, text, timeout_s):
         os.unlink(path)
 
 
+def _z3_check(rel, neg, rlimit, timeout_ms=None):
+    s = z3.Solver()
+    s.set('rlimit', rlimit)
+    if timeout_ms:
+        s.set('timeout', timeout_ms)     # backstop: some tactics (nlsat) ignore rlimit
+    for c in rel:
+        s.add(c)
+    s.add(neg)
+    t0 = time.time()
+    r = s.check()
+    return r, s, (time.time() - t0) * 1000
+
+
 def check_valid(pc, goal, timeout_ms=None, portfolio=True):
-    """Is (AND pc) => goal valid?  Returns Verdict."""
-    timeout_ms = timeout_ms or MAIN_TIMEOUT_MS
+    """Is (AND pc) => goal valid?  Returns Verdict.
+
+    Portfolio (each step only when the previous ones answered unknown):
+      z3 5.1 at a small resource limit -> cvc5 (short wall-clock cap) -> z3 with the to_int
+      encoding of floor() -> z3 at a larger resource limit -> z3 4.8.
+    Resource limits, not wall-clock, wherever the solver offers them."""
+    global PORTFOLIO_SPENT_S
     if isinstance(goal, bool):
         if goal:
             return Verdict('unsat', 'trivial', 0.0)
         goal_t = z3.BoolVal(False)
     else:
         goal_t = goal
-    s = z3.Solver()
-    s.set('rlimit', MAIN_RLIMIT)
     neg = z3.Not(goal_t)
     rel = relevant(pc, symbols_of(neg))
-    for c in rel:
-        s.add(c)
-    s.add(neg)
-    t0 = time.time()
-    r = s.check()
-    ms = (time.time() - t0) * 1000
+    r, s, ms = _z3_check(rel, neg, QUICK_RLIMIT)
     if r == z3.unsat:
         return Verdict('unsat', 'z3-5.1', ms)
     if r == z3.sat:
-        model = s.model()
-        if len(rel) < len(pc):
-            # complete the witness: the dropped conjuncts share no symbol with
-            # the query, solve them separately and merge the models
-            rest = [c for c in pc if not any(c is k for k in rel)]
-            s2 = z3.Solver()
-            s2.set('rlimit', MAIN_RLIMIT)
-            for c in rest:
-                s2.add(c)
-            if s2.check() == z3.sat:
-                model = MergedModel(model, s2.model())
-        return Verdict('sat', 'z3-5.1', ms, model=model)
+        return _sat_verdict(s, pc, rel, ms)
     reason = s.reason_unknown()
-    global PORTFOLIO_SPENT_S
-    if PORTFOLIO_SPENT_S > PORTFOLIO_BUDGET_S:
-        portfolio = False
-        reason += ' (portfolio budget of this worker exhausted)'
     if not portfolio:
         return Verdict('unknown', 'z3-5.1', ms, reason=reason)
-    text = '(set-logic ALL)\n' + s.to_smt2()
-    res, ms2 = run_cli([CVC5, '--strings-exp', f'--tlimit={timeout_ms * 3}'], text, timeout_ms * 3 / 1000 + 5)
-    PORTFOLIO_SPENT_S += ms2 / 1000
-    if res == 'unsat':
-        return Verdict('unsat', 'cvc5-1.0', ms + ms2)
-    res3, ms3 = run_cli([OLDZ3, f'-T:{max(1, timeout_ms * 2 // 1000)}'], s.to_smt2(), timeout_ms * 2 / 1000 + 5)
-    PORTFOLIO_SPENT_S += ms3 / 1000
-    if res3 == 'unsat':
-        return Verdict('unsat', 'z3-4.8', ms + ms2 + ms3)
+    res = None
+    if PORTFOLIO_SPENT_S <= PORTFOLIO_BUDGET_S:
+        text = '(set-logic ALL)\n' + s.to_smt2()
+        res, ms2 = run_cli([CVC5, '--strings-exp', '--tlimit=6000'], text, 10)
+        PORTFOLIO_SPENT_S += ms2 / 1000
+        ms += ms2
+        if res == 'unsat':
+            return Verdict('unsat', 'cvc5-1.0', ms)
+    # second encoding of floor(): built-in to_int instead of definitional integer variables
+    present = symbols_of(neg)
+    for c in rel:
+        present = present | symbols_of(c)
+    subs = [(k, z3.ToInt(t)) for name, (t, k) in sym.FLOOR_DEFS.items() if name in present]
+    if subs:
+        r3, s3, ms3 = _z3_check([z3.substitute(c, *subs) for c in rel], z3.substitute(neg, *subs), MAIN_RLIMIT // 3, 15000)
+        ms += ms3
+        if r3 == z3.unsat:
+            return Verdict('unsat', 'z3-5.1(to_int)', ms)
+    r4, s4, ms4 = _z3_check(rel, neg, MAIN_RLIMIT, 20000)
+    ms += ms4
+    if r4 == z3.unsat:
+        return Verdict('unsat', 'z3-5.1', ms)
+    if r4 == z3.sat:
+        return _sat_verdict(s4, pc, rel, ms)
+    res3 = None
+    if PORTFOLIO_SPENT_S <= PORTFOLIO_BUDGET_S:
+        res3, ms5 = run_cli([OLDZ3, '-T:6'], s.to_smt2(), 10)
+        PORTFOLIO_SPENT_S += ms5 / 1000
+        ms += ms5
+        if res3 == 'unsat':
+            return Verdict('unsat', 'z3-4.8', ms)
     if res == 'sat' or res3 == 'sat':
-        # a model from the CLI back ends is not parsed: retry z3 API without timeout pressure
-        s.set('rlimit', MAIN_RLIMIT * 4)
-        r = s.check()
-        if r == z3.sat:
-            return Verdict('sat', 'z3-5.1', ms + ms2 + ms3, model=s.model())
-        return Verdict('sat', 'cvc5/z3-cli', ms + ms2 + ms3, model=None, reason='sat without parsed model')
-    return Verdict('unknown', 'z3-5.1+cvc5+z3-4.8', ms + ms2 + ms3, reason=f'{reason}; cvc5={res}; z3old={res3}')
+        return Verdict('sat', 'cvc5/z3-cli', ms, model=None, reason='sat without parsed model')
+    return Verdict('unknown', 'z3-5.1+cvc5+z3-4.8', ms, reason=f'{reason}; cvc5={res}; z3old={res3}')
+
+
+def _sat_verdict(s, pc, rel, ms):
+    model = s.model()
+    if len(rel) < len(pc):
+        # complete the witness: the dropped conjuncts share no symbol with
+        # the query, solve them separately and merge the models
+        rest = [c for c in pc if not any(c is k for k in rel)]
+        s2 = z3.Solver()
+        s2.set('rlimit', MAIN_RLIMIT)
+        for c in rest:
+            s2.add(c)
+        r2 = s2.check()
+        if r2 == z3.sat:
+            model = MergedModel(model, s2.model())
+        elif r2 == z3.unsat:
+            # the rest of the path condition is contradictory: the path is infeasible
+            # (a branch check had answered unknown), the obligation holds vacuously there
+            return Verdict('unsat', 'z3-5.1(infeasible path)', ms)
+        else:
+            return Verdict('unknown', 'z3-5.1', ms, reason='counter-model of the goal found, but the feasibility '
+                                                            'of the rest of the path condition is unknown')
+    return Verdict('sat', 'z3-5.1', ms, model=model)
 
 
 # ---------------------------------------------------------------------------
@@ -478,6 +515,7 @@ class Verifier:
         sub = Explorer(outer.branch_timeout_ms)
         sub.base_pc = list(outer.pc)
         sub.prefix = outer.fresh_name('s') + '.'
+        sub.floor_cache_seed = dict(outer.floor_cache)   # same term -> same floor variable
         sub.fork_site = outer.fork_site
         sub.fork_counts = outer.fork_counts
         nbase = len(sub.base_pc)
@@ -772,9 +810,9 @@ class Verifier:
                     raise PathAbort()
                 pick = mk_bool(pick[1] == 1)
             elif isinstance(pick, tuple) and pick[0] == 'int':
-                if not ex.branch(z3.ToReal(z3.ToInt(pick[1])) == pick[1]):
+                if not ex.branch(z3.ToReal(sym.floor_int(ex, pick[1])) == pick[1]):
                     raise PathAbort()
-                pick = mk_int(z3.ToInt(pick[1]))
+                pick = mk_int(sym.floor_int(ex, pick[1]))
             if k:
                 prior[n] = pick
             out.append(pick)
